@@ -86,9 +86,14 @@ theorem nlj_chunking_irrelevant (c : Cfg) (chunks chunks' : List (List Row)) (R 
     (h : chunks.flatten = chunks'.flatten) : nljChunked c chunks R ~ nljChunked c chunks' R :=
   (nljChunked_perm c chunks R).trans (h ▸ (nljChunked_perm c chunks' R).symm)
 
-/-- **Defect witness (pinned upstream code, notes/C05.md).**  When the left batch that trips the
-    memory limit is the last one, `handle_buffering_left_memory_limited` goes from `BufferingLeft`
-    straight to `Done` and the global right-side emission never happens.  On the replay input
+/-- the repaired code (`nljMemLimited true`, /repo fix c1e5d66) is the proved operator -/
+theorem nlj_memlimited_repaired_refines (c : Cfg) (chunks : List (List Row)) (R : List Row) :
+    nljMemLimited true c chunks R ~ join c.jt c.matches c.wl c.wr chunks.flatten R :=
+  nljChunked_perm c chunks R
+
+/-- **Defect witness (pinned upstream code; repaired by /repo fix c1e5d66, notes/C05.md).**  When the
+    left batch that trips the memory limit was the last one, `handle_buffering_left_memory_limited`
+    went from `BufferingLeft` straight to `Done` and the global right-side emission never happened.  On the replay input
     (Right join on column 0, left chunk of 4 rows, 4 right rows) the result is not the join. -/
 theorem nlj_memlimit_skips_global_right_witness :
     let c : Cfg := { jt := .right, nullEq := false, kl := fun l => [l.headD none],
